@@ -23,6 +23,10 @@ def generate(G):
     G.ob("c11_bcastcustom", "C11", "once", "c11::once(s, &programs::BcastCustom, %s)" % G.leaves([L([2], "D2"), L([2], "D2"), L([2, 2], "D2")]),
          unwind=8, tier="quick", skeleton={"program": "n0 = a*k; n1 = n0*k; n2 = m*n0 (n0 broadcast into [2,2]); n3 = n1 + n2", "ops": "Array::op with counting, broadcasting closures"},
          domains="values D2, seed D4")
+    G.ob("c11_retrackedsquare", "C11", "once", "c11::once(s, &programs::RetrackedSquare, %s)" % G.leaves([L([2], "D2"), L([2], "D2")]),
+         unwind=6, tier="quick", skeleton={"program": "k = (a*b).untracked() + start_tracking(); y = k*k", "ops": "Array::op with counting closures",
+                                           "what": "a tracked node without the keep flag, two consumers"},
+         domains="values D2, seed D4")
     G.ob("c11_detacheduse", "C11", "once", "c11::once(s, &programs::DetachedUse, %s)" % G.leaves([L([2], "D2"), L([2], "D2")]),
          unwind=6, tier="quick", skeleton={"program": "y = a*b; z = y * y.clone().untracked()", "ops": "Array::op with counting closures"},
          domains="values D2, seed D4")
